@@ -405,7 +405,7 @@ fn cmd_run(args: &[String]) -> i32 {
         for k in [
             "probe_rejection_then_accept", "probe_stall_recovered", "probe_full_range", "probe_signed_range_spans_zero", "probe_result_eq_low", "probe_result_eq_high",
             "probe_offset_carries_past_first_digit", "probe_err_propagated", "probe_err_surfaced_as_rand_panic", "probe_injected_panic_propagated", "probe_sampler_reused_after_panic",
-            "probe_zero_length_fill", "probe_gen_refines_history", "probe_fill_refines_history", "probe_slice_equals_elementwise", "probe_fibre_at_bound", "r3_clusters_checked",
+            "probe_zero_length_fill", "probe_gen_refines_history", "probe_fill_refines_history", "probe_slice_equals_elementwise", "probe_fibre_at_bound", "r3_clusters_checked", "probe_accepted_word_is_function",
             "fault_rng_err", "fault_rng_partial_err", "fault_rng_panic", "fault_stall_repeat",
         ] {
             if agg.counters.get(k).copied().unwrap_or(0) == 0 {
